@@ -42,6 +42,7 @@ FIXED = [
  ("C10", "CellSpanningTree.build_tree_as_polyline reads", "CellSpanningTree.build_tree_as_polyline raised AttributeError once a 'barycenter' attribute existed on the faces (wrong container tested, non-existent accessor called)"),
  ("C11", "KDTree construction terminates", "KDTree construction looped forever when the pivot equals the largest coordinate on every axis (repeated / collinear / clustered points), all three strategies"),
  ("C11", "KDTree.query only prunes once k candidates", "KDTree.query pruned subtrees with fewer than k candidates held: fewer than min(k,n) results or a farther point returned"),
+ ("C17", "Tutte square boundary no longer stacks", "TutteEmbedding(boundary_mode='square') placed the first vertex of sides 2-4 on the preceding corner: coincident border positions and zero-area triangles for every border of >= 5 vertices"),
  ("C14", "circumcenter lies in the plane", "geometry.circumcenter dropped the normal offset of the triangle's plane (dual_mesh circumcenter mode put vertices in the wrong plane)"),
 ]
 
